@@ -70,6 +70,7 @@ def main(argv=None):
     ap.add_argument("--jobs", type=int, default=int(os.environ.get("SYMX_JOBS", "16")))
     ap.add_argument("--no-evidence", action="store_true")
     ap.add_argument("-v", action="store_true")
+    ap.add_argument("--times", action="store_true")
     a = ap.parse_args(argv)
     prop = a.prop.upper()
     seed = int(os.environ.get("VERIF_SEED", "0"))
@@ -191,6 +192,10 @@ def main(argv=None):
     for m in inconclusive[:20]:
         print("INCONCLUSIVE property=%s %s" % (prop, m[:1500]))
     undec = len(inconclusive)
+    if a.times:
+        for h in sorted(per_harness, key=lambda h: -h["wall_s"])[:15]:
+            print("TIME %6.1fs solver=%6.1fs paths=%5d obl=%6d %s %s" % (h["wall_s"], h["solver_s"], h["paths"],
+                                                                      h["obligations"], h["harness"], json.dumps(h["cfg"])))
     print("%s tier=%s harness-instances=%d paths=%d obligations=%d discharged=%d undecided=%d "
           "violations=%d known=%d mismatches=%d queries=%d solver=%.1fs wall=%.1fs" % (
               prop, a.tier, len(results) + len(extra_results), tot["paths"], tot["obligations"],
